@@ -1404,7 +1404,7 @@ compare_info(const ProjDataInfo& a, const ProjDataInfo& b, const std::string& wh
   const Bin b0(ga.min_seg, ga.min_view, ga.minax(ga.min_seg), ga.min_tang, ga.min_tof), b1(ga.max_seg, ga.max_view, ga.maxax(ga.max_seg), ga.max_tang, ga.max_tof);
   // (cylindrical geometries only: detector positions of block geometries are rounded to 1e-3 mm,
   //  DetectorCoordinateMap.cxx:136-139, so their bin coordinates are not a continuous function of the header numbers)
-  if (ca && cb)
+  if (a.get_scanner_ptr()->get_scanner_geometry() == "Cylindrical")
   for (const Bin& bb : { b0, b1 })
     {
       // lengths in the header carry 6 significant digits: an error of 5e-6 relative to the ring radius / scanner length
